@@ -2,6 +2,7 @@ SPECIFICATION TSpec
 CONSTANTS
   MaxFailed = 3
   Deviations = {}
+  KnownTags = {}
 INVARIANTS NoMismatch
 CONSTRAINT TConstraint
 POSTCONDITION TAccepted
